@@ -336,7 +336,8 @@ func (self *BinaryConv) unmarshalMap(ctx context.Context, resp http.ResponseSett
 		return wrapError(meta.ErrRead, "parse MapKey Tag error", err)
 	}
 	mapKeyDesc := fd.Key()
-	isIntKey := (mapKeyDesc.Type() == proto.INT32) || (mapKeyDesc.Type() == proto.INT64) || (mapKeyDesc.Type() == proto.UINT32) || (mapKeyDesc.Type() == proto.UINT64)
+	// every key kind but string (all integer kinds and bool) is printed bare and needs quoting
+	isIntKey := mapKeyDesc.Type() != proto.STRING
 	if isIntKey {
 		*out = append(*out, '"')
 	}
